@@ -452,6 +452,10 @@ def bool_switch_comparison(body, bb):
                 other += 1
         if len(cmps) == 1 and other == 0 and all(c == 0 for c in consts):
             return cmps[0], neg
+        if len(cmps) == 1 and other == 0 and consts and all(c == 1 for c in consts):
+            # the rejecting form, `x.map_or(true, |v| v > limit)`: the flag being false implies the negated comparison
+            c0 = cmps[0]
+            return ("bin", {"Gt": "Le", "Ge": "Lt", "Lt": "Ge", "Le": "Gt", "Eq": "Ne", "Ne": "Eq"}[c0[1]], c0[2], c0[3]) + tuple(c0[4:]), not neg
     return None, False
 
 
